@@ -52,8 +52,12 @@ inline constexpr void convert_type_fundamental(T_To& to,
     // Some branches don't use the param
     RLBOX_UNUSED(err_msg);
 
-    if constexpr (is_signed_v<T_To> == is_signed_v<T_From> &&
-                  sizeof(T_To) >= sizeof(T_From)) {
+    if constexpr (is_same_v<remove_cv_t<T_To>, bool> &&
+                  !is_same_v<remove_cv_t<T_From>, bool>) {
+      // bool only represents 0 and 1, whatever its storage size
+      dynamic_check(from == 0 || from == 1, err_msg);
+    } else if constexpr (is_signed_v<T_To> == is_signed_v<T_From> &&
+                         sizeof(T_To) >= sizeof(T_From)) {
       // Eg: int64_t from int32_t, uint64_t from uint32_t
     } else if constexpr (is_unsigned_v<T_To> && is_unsigned_v<T_From>) {
       // Eg: uint32_t from uint64_t
@@ -128,7 +132,9 @@ inline constexpr void convert_type_fundamental_or_array(T_To& to,
     // Explicitly using size to check for element type as we may be going across
     // different types of the same width such as void* and uintptr_t
     if constexpr (sizeof(T_To_El) == sizeof(T_From_El) &&
-                  is_signed_v<T_To_El> == is_signed_v<T_From_El>) {
+                  is_signed_v<T_To_El> == is_signed_v<T_From_El> &&
+                  is_same_v<remove_cv_t<T_To_El>, bool> ==
+                    is_same_v<remove_cv_t<T_From_El>, bool>) {
       // Sanity check - this should definitely be true
       static_assert(sizeof(T_From_C) == sizeof(T_To_C));
       std::memcpy(&to, &from, sizeof(T_To_C));
